@@ -63,11 +63,24 @@ ROUTES = [("generic", "seq", True), ("generic", "seq", False), ("typed", "seq", 
           ("generic", "nth", True), ("typed", "nth", True)]
 
 
-def route_ops(route, n):
+def nth_order(n, key):
+    """Order of random accesses on one reader: every index at least once, not
+    ascending (reversed or rotated), index 0 once more at the end."""
+    order = list(range(n))
+    if key % 3 == 0:
+        order.reverse()
+    elif key % 3 == 1 and n > 1:
+        k = 1 + key % (n - 1)
+        order = order[k:] + order[:k]
+    return order + ([0] if n else [])
+
+
+def route_ops(route, n, key=0):
     kind, mode, _ = route
     if mode == "seq":
         return [("it", -1)]
-    return [("count",)] + [("nth", i) for i in range(n)] + [("nth", n), ("nth", n + 3)]
+    # random access in a non-monotone order, beyond the end, then a full iteration on the same reader
+    return [("count",)] + [("nth", i) for i in nth_order(n, key)] + [("nth", n), ("nth", n + 3), ("it", -1)]
 
 
 def run_read_stage(rep, binary, files, tag, routes=ROUTES):
@@ -84,12 +97,13 @@ def run_read_stage(rep, binary, files, tag, routes=ROUTES):
             if with_shx and not f.get("has_shx", True):
                 continue
             req = -1 if kind == "generic" else f["code"]
-            ops = route_ops(route, n)
+            ops = route_ops(route, n, fi)
             cs.append(C.read_case(req, w["shp"]["buf"], w["shx"]["buf"] if with_shx else None, ops))
             where.append((fi, route, ops))
     impl = stages.correspondence(rep, tag + "_read", binary, cs, "read")
     for (fi, route, ops), r in zip(where, impl):
         files[fi]["reads"][route] = C.parse_read(r, ops)
+        files[fi]["reads"][route]["requested"] = ops
     return impl
 
 
